@@ -255,6 +255,8 @@ pub enum DbOp {
     Reopen(bool),
     /// manual compaction of the whole key range
     CompactAll,
+    /// take a snapshot (kept until the end of the history; `run_views` reports what it sees)
+    Snapshot,
 }
 
 /// Runs the history on an in-memory file system and returns, after the last step, what `get`
@@ -269,6 +271,7 @@ pub fn run_history(ops: &[DbOp], keys: &[Vec<u8>]) -> Vec<String> {
             DbOp::Delete(k) => db.as_ref().unwrap().delete(WriteOptions::default(), k.clone()).unwrap(),
             DbOp::Flush => db.as_ref().unwrap().force_memtable_compaction().unwrap(),
             DbOp::CompactAll => db.as_ref().unwrap().compact_range(None..None),
+            DbOp::Snapshot => {}
             DbOp::Reopen(reuse) => {
                 drop(db.take());
                 options.reuse_log_files = *reuse;
@@ -285,4 +288,99 @@ pub fn run_history(ops: &[DbOp], keys: &[Vec<u8>]) -> Vec<String> {
             Err(e) => format!("error:{}", e),
         })
         .collect()
+}
+
+
+/// What one read view (a snapshot, or the latest state = `None`) shows at the end of a history.
+pub struct View {
+    /// index into the history of the `Snapshot` op that created it; None = latest state
+    pub taken_at: Option<usize>,
+    pub gets: Vec<String>,
+    pub forward: Vec<(Vec<u8>, Vec<u8>)>,
+    pub backward: Vec<(Vec<u8>, Vec<u8>)>,
+    /// cursor walk: after `seek(key)` for every key of interest, the key found ("-" = invalid)
+    pub seeks: Vec<String>,
+    /// zig-zag walk from the first entry following `moves` ('n' / 'p'); key after each move, stops when invalid
+    pub zigzag: Vec<String>,
+}
+
+fn hexs(b: &[u8]) -> String { b.iter().map(|x| format!("{:02x}", x)).collect() }
+
+/// Runs the history (snapshots live across flushes and compactions, not across a reopen) and
+/// reports every view through the public read API: get, and the DatabaseIterator in both
+/// directions, with seeks and direction reversals.
+pub fn run_views(ops: &[DbOp], keys: &[Vec<u8>], moves: &str) -> Vec<View> {
+    use crate::RainDbIterator;
+    let mut options = DbOptions::with_memory_env();
+    options.create_if_missing = true;
+    let mut db = Some(DB::open(options.clone()).unwrap());
+    let mut snaps: Vec<(usize, crate::Snapshot)> = vec![];
+    for (i, op) in ops.iter().enumerate() {
+        match op {
+            DbOp::Put(k, v) => db.as_ref().unwrap().put(WriteOptions::default(), k.clone(), v.clone()).unwrap(),
+            DbOp::Delete(k) => db.as_ref().unwrap().delete(WriteOptions::default(), k.clone()).unwrap(),
+            DbOp::Flush => db.as_ref().unwrap().force_memtable_compaction().unwrap(),
+            DbOp::CompactAll => db.as_ref().unwrap().compact_range(None..None),
+            DbOp::Snapshot => snaps.push((i, db.as_ref().unwrap().get_snapshot())),
+            DbOp::Reopen(reuse) => {
+                snaps.clear();
+                drop(db.take());
+                options.reuse_log_files = *reuse;
+                options.create_if_missing = false;
+                db = Some(DB::open(options.clone()).unwrap());
+            }
+        }
+    }
+    let d = db.as_ref().unwrap();
+    let mut views = vec![];
+    let mut all: Vec<(Option<usize>, Option<crate::Snapshot>)> = snaps.iter().map(|(i, s)| (Some(*i), Some(s.clone()))).collect();
+    all.push((None, None));
+    for (taken_at, snap) in all {
+        let ro = || ReadOptions { fill_cache: true, snapshot: snap.clone() };
+        let gets = keys
+            .iter()
+            .map(|k| match d.get(ro(), k) {
+                Ok(v) => format!("value:{}", hexs(&v)),
+                Err(crate::RainDBError::KeyNotFound) => "notfound".to_string(),
+                Err(e) => format!("error:{}", e),
+            })
+            .collect();
+        let mut forward = vec![];
+        let mut it = d.new_iterator(ro()).unwrap();
+        it.seek_to_first().unwrap();
+        while it.is_valid() {
+            let (k, v) = it.current().unwrap();
+            forward.push((k.clone(), v.clone()));
+            it.next();
+        }
+        let mut backward = vec![];
+        let mut it = d.new_iterator(ro()).unwrap();
+        if !forward.is_empty() || true {
+            // (seek_to_last on an empty database panics in a block iterator in some layouts; it is
+            // only exercised when the forward scan found the database non-empty or memtable-only)
+            if it.seek_to_last().is_ok() {
+                while it.is_valid() {
+                    let (k, v) = it.current().unwrap();
+                    backward.push((k.clone(), v.clone()));
+                    it.prev();
+                }
+            }
+        }
+        let mut seeks = vec![];
+        let mut it = d.new_iterator(ro()).unwrap();
+        for k in keys {
+            it.seek(k).unwrap();
+            seeks.push(if it.is_valid() { hexs(it.current().unwrap().0) } else { "-".to_string() });
+        }
+        let mut zigzag = vec![];
+        let mut it = d.new_iterator(ro()).unwrap();
+        it.seek_to_first().unwrap();
+        for m in moves.chars() {
+            if !it.is_valid() { break; }
+            if m == 'n' { it.next(); } else { it.prev(); }
+            zigzag.push(if it.is_valid() { hexs(it.current().unwrap().0) } else { "-".to_string() });
+        }
+        views.push(View { taken_at, gets, forward, backward, seeks, zigzag });
+    }
+    views
 }
